@@ -42,7 +42,37 @@ CLAIMS.update({
          "Structural: pools cannot panic on a nil map or nil lookup and hold their lock around index access. Necessary conditions of 'never panics'.",
          "Content-level pool invariants are not decided.", "DESIGN.md §3 B3,B2b,E2; §4 C20"),
 })
+CLAIMS.update({
+ "C01": ("CFG must-pass-through (vertex-cut) analysis of per-fork block pipelines against frozen spec stage tables, plus error-flow, argument-order, limit and view-shape rules on the block path",
+         "Structural: the composition of the block transition (which sub-transitions, which fork variant, dependent order, error propagation, signature-before/root-after) is the spec's for every fork; exhaustive over paths of the pipeline functions. Necessary conditions of spec equality, not arithmetic equality.",
+         "Stage tables transcribed from consensus-specs v1.5.0-beta.2; arithmetic inside stages is not decided.", "DESIGN.md §3 C1-C3,B1,B7,C7,C10; §9"),
+ "C02": ("CFG ordering analysis of the slot loop and per-fork epoch pipelines + upgrade carry-over tracing",
+         "Structural: slot loop order, epoch stage sets/variants/dependent order, upgrade dispatch and field carry-over are the spec's on every path. Necessary conditions; epoch arithmetic is not decided.",
+         "Stage tables transcribed from the spec; numeric sub-transitions not decided.", "DESIGN.md §3 C1,C3,C7,A8,D2"),
+ "C03": ("error-flow analysis over all error-returning call sites + BLS domain/object tracing + panic-shape rules",
+         "Structural: no check's failure can be dropped on the way to the caller, every signature check is complete and domain-separated per the spec's table, and the exact panic shapes are absent; exhaustive over ~2900 call sites and 17 verification sites.",
+         "Whether each boolean comparison is the spec's is not decided; guarded explicit panics are listed, not judged.", "DESIGN.md §3 B1,B2,B4,B7,B8"),
+ "C06": ("write-shape analysis of the list shuffle (swap-only) + direction wiring + mirrored-loop sibling agreement",
+         "Structural: decides the 'always a permutation' clause by construction (only swaps) and the forward/inverse wiring; the spec-equality and mutual-inverse clauses are numeric and not decided.",
+         "Hash-bit selection arithmetic is not decided.", "DESIGN.md §4 C06"),
+ "C07": ("symbolic slice-bound analysis of committee construction + sibling agreement of samplers + seed-domain table",
+         "Structural: decides the partition clause symbolically (start/end polynomials, full product loops) and the sampling/seed wiring; equality with the spec's assignment is numeric and not decided.",
+         "Relies on shuffle.perm for the permutation premise.", "DESIGN.md §4 C07"),
+ "C08": ("field-write coverage analysis (from-scratch vs incremental) + shared-structure write analysis + upkeep ordering",
+         "Structural: any context field filled from scratch but not refreshed incrementally, or any shared sub-structure written after construction, is reported; necessary conditions of context/state agreement along histories.",
+         "Value equality along histories not decided.", "DESIGN.md §3 C4-C6"),
+ "C12": ("CFG reachability of marks vs verdict returns + outcome-class table for all 108 verdict returns + BLS tracing",
+         "Structural: seen-caches are marked only on ACCEPT, each refusal has the verdict class the p2p spec assigns to its governing outcome, signatures are complete and domain-correct. Necessary conditions of verdict correctness.",
+         "Outcome-class table transcribed from the phase0/altair p2p documents; completeness of condition lists not decided.", "DESIGN.md §3 B5,B6,B4"),
+ "C13": ("CFG must-pass-through and argument-shape analysis of GenesisFromEth1 against the spec's initialisation steps",
+         "Structural: every initialisation step of the spec is on every success path with the spec's arguments and order. Necessary conditions of genesis equality.",
+         "Field-for-field equality for all deposit lists not decided.", "DESIGN.md §3 C8"),
+ "C18": ("per-poll and per-engine-call consumption analysis + error-flow over the transition call sites",
+         "Structural: every cancellation poll and every engine answer provably becomes an error return, and no frame above drops it; exhaustive over the 36 polls and the engine call sites of three forks.",
+         "The 'identical when undisturbed' clause is only checked structurally (polls are side-effect free).", "DESIGN.md §3 C9,C10,B1"),
+})
 NA = {
+ "C19": "every clause is a statement about numeric results over the full uint64 domain (floor square root, power-of-two rounding, slot/time arithmetic with wrap-around, exact acceptance set of a Merkle verifier); a sound static argument needs relational numeric invariants that interval/constant propagation cannot establish without false alarms on a correct implementation, and handing paths to a solver is a different technique family. The one structural fragment (VerifyMerkleBranch branch length >= depth) is checked under C03/C13 (merkle.bound) and does not amount to a claim on C19.",
 }
 ALL = ["C%02d" % i for i in range(1, 21)]
 PENDING_REASON = "check not built yet in this round (planned rules: DESIGN.md §4); not claimed until its rules exist and are silent/triaged on the unchanged tree"
